@@ -230,11 +230,15 @@ func kinds() []objKind {
 		{"RateLimitCondition", rlc, rlc.status != nil, rlcPair,
 			func(o runtime.Object) interface{} { return o.(*proxyv1alpha1.RateLimitCondition).Spec },
 			func(o runtime.Object) interface{} { return o.(*proxyv1alpha1.RateLimitCondition).Status }, rlcMeta,
-			func(o runtime.Object) bool { return len(o.(*proxyv1alpha1.RateLimitCondition).Status.LimitItemStatuses) > 0 }},
+			func(o runtime.Object) bool {
+				return len(o.(*proxyv1alpha1.RateLimitCondition).Status.LimitItemStatuses) > 0
+			}},
 		{"RateLimitCondition-under-UpstreamCluster-strategy", uc, uc.status != nil, rlcPair,
 			func(o runtime.Object) interface{} { return o.(*proxyv1alpha1.RateLimitCondition).Spec },
 			func(o runtime.Object) interface{} { return o.(*proxyv1alpha1.RateLimitCondition).Status }, rlcMeta,
-			func(o runtime.Object) bool { return len(o.(*proxyv1alpha1.RateLimitCondition).Status.LimitItemStatuses) > 0 }},
+			func(o runtime.Object) bool {
+				return len(o.(*proxyv1alpha1.RateLimitCondition).Status.LimitItemStatuses) > 0
+			}},
 	}
 }
 
